@@ -123,6 +123,7 @@ def observe(U, c):
 class Check(PropCheck):
     id = 'C18'
     stream = 'C18'
+    extra_modules = ('AHP.Props.C18Code',)       # TagCollection's methods themselves, interpreted in Lean, = the hand model Coll
     exhaustive_in = ('quick', 'thorough')
     rule = ('histories of TagCollection operators (constructor, +, +=, -, -=, uniqueTags) with operand lists of length 0-3 '
             'incl. repeats over forests of 4 elements (exhaustive to depth 2 quick / 3 thorough on one forest, all single ops on '
